@@ -167,7 +167,7 @@ def run_search(mod, tier, seed, shard, nshards, args) -> dict:
 
     hangs = [0]
 
-    @hseed(derive_seed(seed, shard))
+    @hseed(derive_seed(seed, shard) + int(args.get("seed_salt", 0)))
     @hyp_settings(n)
     @given(strat)
     def t(spec):
@@ -230,7 +230,7 @@ def run_shrink(mod, tier, seed, shard, nshards, args) -> dict:
     n = total // nshards + (1 if shard < total % nshards else 0)
     strat = mod.strategy(tier)
 
-    @hseed(derive_seed(seed, shard))
+    @hseed(derive_seed(seed, shard) + int(args.get("seed_salt", 0)))
     @hyp_settings(n, shrink=True)
     @given(strat)
     def t(spec):
